@@ -11,6 +11,8 @@ CONSTANTS
   AllowEnd = FALSE
   MaxRequery = 0
   FixCommitState = TRUE
+  SeqSMP = FALSE
+  FixSMPReset = FALSE
 INVARIANTS EmitWitness
 VIEW View
 CHECK_DEADLOCK FALSE
